@@ -52,13 +52,27 @@ PROPS_PART = {
                    'never overflow the 255/128 ArrayVec capacities, leave the state unchanged on error, and meet the safety contract of unsafe new_boxed_name '
                    'at both call sites; parse_escape equals the RFC 4343 2.1 escape reference; <Box<Name> as FromStr>::from_str returns exactly the name '
                    'a recursive RFC 1035 5.1 / RFC 4343 decoder assigns to the text and an error when that decoder rejects it. '
+                   'Unit name_core proves, for every input, on the real struct Name { n_labels, data: [u8] } with the views wire()/offsets() DEFINED from data and the '
+                   'representation invariant repr_ok (data = label offsets ++ valid wire form): Name::{len, label_offset(s), wire_repr, wire_repr_mut, wire_repr_to, wire_repr_from, '
+                   'is_root, is_wildcard, labels, Index, IndexMut, superdomain, eq_or_subdomain_of, eq, partial_cmp, cmp, hash, make_ascii_lowercase, to_owned}, '
+                   'Labels::{new, next, next_back, size_hint}, Label::{len, octets, octets_mut, is_null, null, is_asterisk, try_from, to_owned, eq, partial_cmp, cmp, hash}, '
+                   'LabelBuf::{from_unchecked, try_from, deref, borrow, eq, partial_cmp, cmp, hash} and the LowercaseName conversions agree with a reference model over the '
+                   'label sequence of wire(): eq is label-wise equality up to ASCII case and nothing else, cmp is the RFC 4034 6.1 canonical order (compared from the rightmost '
+                   'label, labels as case-folded octet strings, shorter first), hash feeds length octet + case-folded octets of every label; proved lemmas: eq is an equivalence, '
+                   'cmp == Equal iff eq, cmp is antisymmetric and transitive, eq names feed identical hash input; superdomain/to_owned meet the safety contract of unsafe '
+                   'new_boxed_name; make_ascii_lowercase folds every label and keeps the invariant. Unit name_core_bridge proves that these contracts imply the contracts of the '
+                   'trusted Name stand-ins used by the other units (given the type invariant wf() == repr_ok). '
                    'Kani decides on the real crate, complete by the 63-octet type bound: Label::eq is ASCII-case-insensitive octet equality, Label::cmp is the '
                    'RFC 4034 6.1 canonical label order (consistent with eq, antisymmetric), Label::hash feeds length + case-folded octets. '
                    'Bounded Kani (<= 3 labels x <= 2 arbitrary octets): Name eq/cmp/hash, eq_or_subdomain_of, superdomain, label access, wire_repr_to/from, '
-                   'make_ascii_lowercase against a reference model; from_str against an independent decoder on every ASCII text <= 5 octets; Display->FromStr round trip.',
-        level_note='Trusted: Verus/Z3, Kani/CBMC; prelude stand-ins for ArrayVec (incl. DerefMut, TryFrom<&[T]>), Name/Label/Labels accessors, str::as_ref, '
-                   'u8::is_ascii(_digit), the body of unsafe new_boxed_name; rewrite rules R12, NB1, NB3. The Display (rendering) half and all Name-level '
-                   'comparisons are bounded, not proved.',
+                   'make_ascii_lowercase against a reference model (now also proved, see above); from_str against an independent decoder on every ASCII text <= 5 octets; Display->FromStr round trip.',
+        level_note='Trusted: Verus/Z3, Kani/CBMC; prelude stand-ins for ArrayVec (incl. DerefMut, TryFrom<&[T]>), str::as_ref, u8::is_ascii(_digit), u8::to_ascii_lowercase, '
+                   '<[u8]>::eq_ignore_ascii_case / make_ascii_lowercase, Ordering::is_ne, Option::filter, the Hasher stand-in VqHasher (octets fed); the unsafe bodies: new_boxed_name '
+                   '(+ initialize_into, make_fat_pointer(_mut), size_required_for), Name::root, Label::from_unchecked(_mut), Label::asterisk, the repr(transparent) Box casts of LowercaseName '
+                   '(contract of each: a value with exactly this layout / the same octets); rewrite rules R12, NB1, NB3, NC1-NC9 (iterator-adaptor chains of eq/cmp/eq_or_subdomain_of/'
+                   'superdomain/Label::cmp/hash -> verified helper loops over the real Labels::next/next_back; closure normal form with Verus-checked ensures). In units name_builder/name_text '
+                   'the Name/Label/Labels accessors are still used through stand-ins; name_core_bridge shows those stand-in contracts follow from the proved ones. '
+                   'The Display (rendering) half is bounded, not proved.',
         verus=[dict(unit='name_builder', which='all'), dict(unit='name_text', which='all'), dict(unit='name_core', which='all'), dict(unit='name_core_bridge', which='all')],
         kani=[
             dict(harness='full_label_eq_is_ascii_ci', module='names', kind='complete', bound='labels <= 63 octets (type bound)', tier='quick', what='[C16.label_eq] Label::eq == same length and equal octets after folding A-Z'),
@@ -98,8 +112,9 @@ PROPS_PART = {
                           'Equal iff ==; eq_or_subdomain_of == label suffix; labels/len/index/is_root/is_wildcard, superdomain(k), wire_repr_to/from, make_ascii_lowercase; no panic')],
         unverified=['body of unsafe fn new_boxed_name (trusted contract; exercised for real only by the bounded Kani harnesses)',
                     'Display for Label/Name (escaping through core::fmt): only the bounded round-trip harness',
-                    'Name::{eq,cmp,hash,eq_or_subdomain_of,superdomain,wire_repr_to,wire_repr_from,index,make_ascii_lowercase}: iterator-adaptor chains, bounded Kani only',
-                    'LowercaseName conversions (Box::from_raw pointer casts); Labels::next_back/size_hint beyond what the bounded harnesses exercise',
+                    'bodies of the unsafe pointer casts Label::from_unchecked(_mut), Label::asterisk, Name::root, LowercaseName <-> Name Box casts (trusted contracts in unit name_core)',
+                    'impl AsRef<Name> / Borrow<Name> for Box<LowercaseName> (body `&self.0`; Verus cannot type an ensures on these impls), Clone for Box<Name> / Box<LowercaseName>, '
+                    'the 64+64 macro-generated From<&[u8; N]> impls of Label/LabelBuf, FromStr for Box<LowercaseName>: not extracted',
                     'that every non-ASCII *string* is rejected needs one UTF-8 well-formedness fact about &str that is not formalised (the contract is stated over octets)'],
         assumptions=['slice lengths are <= isize::MAX (precondition of try_push_slice)',
                      'arrayvec::ArrayVec behaves as its stand-in contract states (incl. DerefMut and TryFrom<&[T]>)',
